@@ -44,6 +44,12 @@ CHECKS = {
         "DESIGN.md §4 C05",
         TRUSTED + " Layer regexes match exactly their layer's modules; layer modules pairwise unrelated, as the property requires.",
     ),
+    "C16": (
+        "explicit-state BFS over builder call histories on the real objects (canonical-state dedup, fixpoint) + TLC model of the builder protocol with every model state replayed against the implementation",
+        "All call histories of the real LayeredArchitecture builder over an 18-action alphabet are explored breadth-first to the fixpoint (the reachable state space is finite) and all LayerRule histories to a depth bound; every transition executes the real method and is classified by an independent specification automaton (must-reject with ImproperlyConfigured at the call / must-accept with exactly the supplied definition). In addition the protocol is modelled in TLA+, TLC checks the well-formedness invariants on every reachable model state, and every model state's history is replayed on the implementation with enabled-in-model <=> accepted-by-implementation for every action.",
+        "DESIGN.md §4 C16",
+        TRUSTED + " TLC 1.8.0 for the model part; the model is bound to the code by replaying all of its states, not only counterexamples.",
+    ),
 }
 
 PENDING = {}
